@@ -31,6 +31,8 @@ pub struct RowInfo {
     pub cs: Vec<String>,
     /// expected columns (by signal name) whose entry is a literal X or Z
     pub literal_expected: Vec<(String, ExpVal)>,
+    /// every header column whose entry is a literal number, X or Z: (header name, value)
+    pub literal_cols: Vec<(String, ExpVal)>,
     pub is_repeat: bool,
 }
 
@@ -190,6 +192,12 @@ pub fn instrument(b: &mut Built, ch: &mut Ch, nprobes: usize, pref: ProbePref, r
                 match e {
                     Entry::X(_) if cols[col].role != ColRole::ExpectedOnly => info.xs.push(header[col].clone()),
                     Entry::C(_) => info.cs.push(header[col].clone()),
+                    _ => {}
+                }
+                match e {
+                    Entry::X(_) => info.literal_cols.push((header[col].clone(), ExpVal::X)),
+                    Entry::Z(_) => info.literal_cols.push((header[col].clone(), ExpVal::Z)),
+                    Entry::Num(v, _) => info.literal_cols.push((header[col].clone(), ExpVal::Val(*v as i64))),
                     _ => {}
                 }
                 if matches!(e, Entry::X(_) | Entry::Z(_)) && cols[col].role == ColRole::ExpectedOnly {
